@@ -100,6 +100,41 @@ theorem compiled_init_eq_bound_defaults (d : PDef V) (args : List V) (kw : KW V)
     (compiledInit some d args kw).toOption = (interpInit d args kw).toOption :=
   compiled_init_eq some d args kw hwf ⟨fun _ _ _ => rfl, hord⟩ hkw
 
+/-- keyword-only defaults (`def __init__(self, a, *, b=1, c=2)`, dataclass `field(default=…, kw_only=True)`): the
+    generated `__init__` makes them ordinary parameters WITH their defaults, so every call the plain definition accepts
+    (at most the non-keyword-only names positionally) gives the same attributes in the compiled form.  (The converse
+    fails by design: the compiled form also accepts those names positionally, and the interpreted `from_unpack_list`,
+    which passes everything positionally, cannot build such a class at all.) -/
+theorem compiled_init_eq_kwonly (splice : V → Option V) (d : PDef V) (args : List V) (kw : KW V)
+    (hnd : d.names.Nodup) (hslots : d.names.length = totalSlots d.fmts) (hsup : d.superArgs = [])
+    (hsplice : ∀ n v, alookup d.defaults n = some v → splice v = some v)
+    (hord : defaultsOrdered (d.names.map (fun n => (n, alookup d.defaults n))) = true)
+    (hkw : (keys kw).Nodup) (hargs : args.length ≤ d.names.length - d.kwOnly.length) :
+    (compiledInit splice d args kw).toOption = (interpInit d args kw).toOption := by
+  have hguard : (!d.kwOnly.isEmpty && decide (args.length > d.names.length - d.kwOnly.length)) = false := by
+    have : ¬ (args.length > d.names.length - d.kwOnly.length) := by omega
+    simp [this]
+  have hi : interpInit d args kw = interpInit { d with kwOnly := [] } args kw := by
+    unfold interpInit
+    cases d.userInit with
+    | none => rfl
+    | some b => simp only [hguard, List.isEmpty_nil, Bool.not_true, Bool.false_and, Bool.false_eq_true, if_false]; rfl
+  have hc : compiledInit splice d args kw = compiledInit splice { d with kwOnly := [] } args kw := rfl
+  rw [hi, hc]
+  exact compiled_init_eq splice _ args kw (PDef.WF.of_no_super _ hnd hslots hsup rfl) ⟨hsplice, hord⟩ hkw
+
+/-- non-vacuity, and the witness for seeded change C20_m7 (defaults read from getfullargspec().defaults only: the
+    keyword-only ones are lost, `sigDefaults` would be empty): with the defaults the call binds, without them it fails -/
+example :
+    let d : PDef Nat := { fmts := [.str "I", .str "H", .str "B"], names := ["identifier", "ttl", "label"],
+                          userInit := some false, defaults := [("ttl", 7), ("label", 9)], kwOnly := ["ttl", "label"] }
+    (interpInit d [42] [("label", 1)]).toOption = some [("label", 1), ("ttl", 7), ("identifier", 42)]
+    ∧ (compiledInit some d [42] [("label", 1)]).toOption = some [("label", 1), ("ttl", 7), ("identifier", 42)]
+    ∧ (compiledInit some { d with defaults := [] } [42] [("label", 1)]).toOption = none
+    ∧ (interpInit d [42, 7] []).toOption = none ∧ (compiledInit some d [42, 7] []).toOption.isSome = true
+    ∧ (interpUnpack d [42, 7, 9]).toOption = none := by
+  decide
+
 /-- that hypothesis is needed, and it is what `@dataclass(kw_only=True)` runs into (keyword-only parameters are
     regenerated as positional ones): a required field after a defaulted one does not compile (known finding
     `convert_to_payload:dataclass-field-options`; a `default_factory` field is refused by `convert_to_payload` with
@@ -129,7 +164,7 @@ theorem recompile_idempotent (splice : V → Option V) (d : PDef V) (c : Compile
   have hsup : r.superArgs = d.superArgs := by subst hr; rfl
   have hwf' : r.WF := ⟨hnames ▸ hwf.nodup, by rw [hnames, hfm]; exact hwf.slots,
     by rw [hsup, hnames]; exact hwf.super_prefix, by rw [hsup, hfm]; exact hwf.super_len,
-    by rw [hsup, hfm]; exact hwf.super_single⟩
+    by rw [hsup, hfm]; exact hwf.super_single, by subst hr; exact hwf.no_kwonly⟩
   have hmap : r.names.map (fun n => (n, alookup r.sigDefaults n)) = d.names.map (fun n => (n, alookup d.sigDefaults n)) := by
     rw [hnames]
     exact List.map_congr_left (fun n hn => by rw [hsig n hn])
@@ -281,7 +316,12 @@ theorem dataclass_wf (dd : DDef V) (d : PDef V) (h : dd.toPDef = .ok d)
     cases hm : mapTypes (dd.fields.map (·.2.1)) with
     | error e => simp [hm] at h
     | ok fmts => simp only [hm, Except.ok.injEq] at h; subst h; rfl
-  refine PDef.WF.of_no_super d (h1 ▸ hnd) ?_ hs
+  have hk : d.kwOnly = [] := by
+    unfold DDef.toPDef at h
+    cases hm : mapTypes (dd.fields.map (·.2.1)) with
+    | error e => simp [hm] at h
+    | ok fmts => simp only [hm, Except.ok.injEq] at h; subst h; rfl
+  refine PDef.WF.of_no_super d (h1 ▸ hnd) ?_ hs hk
   rw [h1, mapTypes_slots _ _ h2 (by
     intro t ht
     simp only [List.mem_map] at ht
